@@ -29,6 +29,7 @@ EXPLANATION = (
     "implementation of _sample that calls _sample of a sub-term passes on its rng_key (or a key obtained by splitting it) together with "
     "its sample_inputs unchanged."
     ' R14.7: the maximum subtracted before exp() in Tensor._sample is taken along the axis the probabilities are normalised over. R14.8: Delta + Delta merges the terms only after both orientations (lhs.fresh against rhs.inputs and the mirror image) were tested. R14.9: every eager_reduce method hands the remaining variables on with its own op, or with a constant op the path has established to be that op. R14.10: an op applied to funsor-valued expressions in Delta.eager_subs has a default implementation that does not merely raise (Numbers carry Python scalars).'
+    " R14.11: what Contraction._sample subtracts from the result's terms was added to the weights it samples. R14.12 (= C13 R13.13). R14.13: monte_carlo_approximate returns sample + model - guide (signed-sum comparison)."
 )
 ASSUMPTIONS = ["the categorical draw itself, Gaussian sampling and all values are not decided"]
 RULE_TEXT = "one obligation per rule site"
